@@ -361,7 +361,10 @@ func (s *ScopedKeyManager) keyToManaged(derivedKey *hdkeychain.ExtendedKey,
 		return nil, err
 	}
 
-	if !derivedKey.IsPrivate() {
+	// Addresses of watch-only accounts never have a private key to derive.
+	hasPrivKey := len(acctInfo.acctKeyEncrypted) != 0
+
+	if !derivedKey.IsPrivate() && hasPrivKey {
 		// Add the managed address to the list of addresses that need
 		// their private keys derived when the address manager is next
 		// unlocked.
